@@ -137,6 +137,46 @@ pub trait ByPin: HasSnap {
     }
 }
 
+// required methods that take the receiver by value / Rc / Arc: the delegation helper forwards them
+// through `from_delegator`
+
+#[unimock(api = ByVal2Mock)]
+pub trait ByVal2: HasSnap + Sized {
+    fn v2_req(self, x: u8) -> u64;
+    fn v2_prov(self, x: u8) -> u64 {
+        let mut me = Some(self);
+        run_prog(ProgKind::DefaultBody(M::V2Prov), x, 0, &mut |req| match req {
+            PortReq::Snap => PortResp::Snap(me.as_ref().and_then(|s| s.snap())),
+            PortReq::Call(M::V2Req, x, _) => PortResp::Val(me.take().expect("by-value self used twice").v2_req(x)),
+            PortReq::Call(m, ..) => panic!("default body of v2_prov cannot call {m:?}"),
+        })
+    }
+}
+
+#[unimock(api = ByRc2Mock)]
+pub trait ByRc2: HasSnap + Sized {
+    fn rc2_req(self: Rc<Self>, x: u8) -> u64;
+    fn rc2_prov(self: Rc<Self>, x: u8) -> u64 {
+        run_prog(ProgKind::DefaultBody(M::Rc2Prov), x, 0, &mut |req| match req {
+            PortReq::Snap => PortResp::Snap(self.snap()),
+            PortReq::Call(M::Rc2Req, x, _) => PortResp::Val(self.clone().rc2_req(x)),
+            PortReq::Call(m, ..) => panic!("default body of rc2_prov cannot call {m:?}"),
+        })
+    }
+}
+
+#[unimock(api = ByArc2Mock)]
+pub trait ByArc2: HasSnap + Sized {
+    fn arc2_req(self: Arc<Self>, x: u8) -> u64;
+    fn arc2_prov(self: Arc<Self>, x: u8) -> u64 {
+        run_prog(ProgKind::DefaultBody(M::Arc2Prov), x, 0, &mut |req| match req {
+            PortReq::Snap => PortResp::Snap(self.snap()),
+            PortReq::Call(M::Arc2Req, x, _) => PortResp::Val(self.clone().arc2_req(x)),
+            PortReq::Call(m, ..) => panic!("default body of arc2_prov cannot call {m:?}"),
+        })
+    }
+}
+
 // by-value and Rc receivers whose calls resolve to a registered real function (C16)
 
 #[unimock(api = ByValUMock, unmock_with = [real_vu])]
@@ -216,8 +256,29 @@ pub trait Gen<T> {
 }
 
 #[unimock(api = GenMMock)]
-pub trait GenM {
+pub trait GenM: HasSnap {
     fn gm<T: 'static>(&self, x: T) -> u64;
+    /// a provided generic method
+    fn gp<T: 'static + Into<u64> + Copy>(&self, x: T) -> u64 {
+        let m = if TypeId::of::<T>() == TypeId::of::<u8>() { M::GpU8 } else { M::GpU16 };
+        let xv: u64 = x.into();
+        run_prog(ProgKind::DefaultBody(m), xv as u8, 0, &mut |req| match req {
+            PortReq::Snap => PortResp::Snap(self.snap()),
+            PortReq::Call(M::GmU8, x, _) => PortResp::Val(self.gm::<u8>(x)),
+            PortReq::Call(M::GmU16, x, _) => PortResp::Val(self.gm::<u16>(x as u16)),
+            PortReq::Call(m, ..) => panic!("default body of gp cannot call {m:?}"),
+        })
+    }
+}
+
+// a method without parameters: its inputs are zero-sized, its matchers still decide
+#[unimock(api = ZeroMock, unmock_with = [real_z0])]
+pub trait Zero {
+    fn z0(&self) -> u64;
+}
+
+pub fn real_z0(u: &Unimock) -> u64 {
+    run_prog(ProgKind::Real(M::Z0), 0, 0, &mut ref_port(u))
 }
 
 // ---------------------------------------------------------------------------------------------
@@ -256,7 +317,14 @@ impl std::fmt::Debug for DbgArg {
         if fault {
             std::panic::panic_any(UserFault::Debug);
         }
-        write!(f, "{}", self.0)
+        if self.0 == 3 {
+            // a long rendering with multi-byte characters (anything that cuts or scans rendered
+            // arguments has to cope with it)
+            let long: String = std::iter::repeat('\u{436}').take(300).collect();
+            write!(f, "{}{}\u{20ac}", self.0, long)
+        } else {
+            write!(f, "{}", self.0)
+        }
     }
 }
 
@@ -277,6 +345,7 @@ pub trait Lend {
     fn lend_mut(&mut self, x: u8) -> &mut ValA;
     fn lent(&self, x: u8) -> &Tracked;
     fn lend_clone(&self, x: u8) -> &Unimock;
+    fn lend_z(&self, x: u8) -> &ZTok;
     /// provided: lends through the default-impl delegation helper
     fn lend_via(&self, x: u8) -> &ValA {
         self.lend_a(x)
@@ -292,7 +361,7 @@ pub fn real_own_single(_u: &Unimock, _x: u8) -> Tracked {
     Tracked::new(&tl_tracker(), 3_000_000 + tl_val_id() % 1_000_000)
 }
 
-#[unimock(api = OwnMock, unmock_with = [real_own_single, _, _, _, _, _, _, _])]
+#[unimock(api = OwnMock, unmock_with = [real_own_single, _, _, _, _, _, _, _, _, _])]
 pub trait Own {
     fn own_single(&self, x: u8) -> Tracked;
     fn own_multi(&self, x: u8) -> TrackedC;
@@ -302,6 +371,8 @@ pub trait Own {
     fn own_tup1(&self, x: u8) -> (&u32, Tracked);
     fn own_vec(&self, x: u8) -> Vec<Result<&u32, Tracked>>;
     fn own_tup3(&self, x: u8) -> (&u32, Tracked, Tracked);
+    fn own_deep_opt(&self, x: u8) -> Option<Result<&u32, Tracked>>;
+    fn own_deep_poll(&self, x: u8) -> std::task::Poll<Result<&u32, Tracked>>;
 }
 
 // ---------------------------------------------------------------------------------------------
@@ -332,6 +403,9 @@ pub fn dispatch_ref(u: &Unimock, m: M, x: u8, y: u8) -> u64 {
         M::GenU16 => <Unimock as Gen<u16>>::g(u, x as u16),
         M::GmU8 => u.gm::<u8>(x),
         M::GmU16 => u.gm::<u16>(x as u16),
+        M::GpU8 => u.gp::<u8>(x),
+        M::GpU16 => u.gp::<u16>(x as u16),
+        M::Z0 => u.z0(),
         M::Af => crate::exec::block_on(u.af(x)),
         M::Ag => crate::exec::block_on(u.ag(x)),
         M::At => crate::exec::block_on(u.at(x)),
@@ -358,6 +432,7 @@ pub fn direct_real(u: &Unimock, m: M, x: u8, y: u8) -> u64 {
         M::E0 => real_e0(y, u, x),
         M::S0 => real_s0(u, x),
         M::S2 => real_s2(u, x),
+        M::Z0 => real_z0(u),
         M::Af => crate::exec::block_on(real_af(u, x)),
         M::At => crate::exec::block_on(real_at(u, x)),
         other => panic!("{other:?} has no real function taking &Unimock"),
@@ -428,6 +503,12 @@ pub fn type_ids() -> &'static Vec<(TypeId, M)> {
             (TypeId::of::<SkipMock::s2>(), M::S2),
             (TypeId::of::<DbgTMock::d0>(), M::D0),
             (TypeId::of::<ByValUMock::vu>(), M::Vu),
+            (TypeId::of::<ByVal2Mock::v2_req>(), M::V2Req),
+            (TypeId::of::<ByVal2Mock::v2_prov>(), M::V2Prov),
+            (TypeId::of::<ByRc2Mock::rc2_req>(), M::Rc2Req),
+            (TypeId::of::<ByRc2Mock::rc2_prov>(), M::Rc2Prov),
+            (TypeId::of::<ByArc2Mock::arc2_req>(), M::Arc2Req),
+            (TypeId::of::<ByArc2Mock::arc2_prov>(), M::Arc2Prov),
             (TypeId::of::<ByRcUMock::rcu>(), M::RcU),
             #[cfg(feature = "stdworld")]
             (TypeId::of::<FmtTMock::show>(), M::Show),
@@ -438,6 +519,7 @@ pub fn type_ids() -> &'static Vec<(TypeId, M)> {
             (TypeId::of::<LendMock::lend_clone>(), M::LendClone),
             (TypeId::of::<LendMock::lend_via>(), M::LendVia),
             (TypeId::of::<LendMock::lend_via_mut>(), M::LendViaMut),
+            (TypeId::of::<LendMock::lend_z>(), M::LendZ),
             (TypeId::of::<OwnMock::own_single>(), M::OwnSingle),
             (TypeId::of::<OwnMock::own_multi>(), M::OwnMulti),
             (TypeId::of::<OwnMock::own_opt>(), M::OwnOpt),
@@ -446,6 +528,8 @@ pub fn type_ids() -> &'static Vec<(TypeId, M)> {
             (TypeId::of::<OwnMock::own_tup1>(), M::OwnTup1),
             (TypeId::of::<OwnMock::own_vec>(), M::OwnVec),
             (TypeId::of::<OwnMock::own_tup3>(), M::OwnTup3),
+            (TypeId::of::<OwnMock::own_deep_opt>(), M::OwnDeepOpt),
+            (TypeId::of::<OwnMock::own_deep_poll>(), M::OwnDeepPoll),
             (TypeId::of::<AsyncAMock::af>(), M::Af),
             (TypeId::of::<AsyncAMock::ag>(), M::Ag),
             (TypeId::of::<AsyncTMock::at>(), M::At),
@@ -453,6 +537,9 @@ pub fn type_ids() -> &'static Vec<(TypeId, M)> {
             (tid_of(&GenMock::g.with_types::<u16>()), M::GenU16),
             (tid_of(&GenMMock::gm.with_types::<u8>()), M::GmU8),
             (tid_of(&GenMMock::gm.with_types::<u16>()), M::GmU16),
+            (tid_of(&GenMMock::gp.with_types::<u8>()), M::GpU8),
+            (tid_of(&GenMMock::gp.with_types::<u16>()), M::GpU16),
+            (TypeId::of::<ZeroMock::z0>(), M::Z0),
         ]
     })
 }
